@@ -65,6 +65,7 @@ def run(ctx):
                    'write: two concurrent publishes can derive the same next epoch. Candidates: %s' % (
                        first['line'] if first else '?', '; '.join(why)), key='RF-ORDER|C12.region')
     ss.transaction_lifecycle(ctx, 'C12')
+    ss.log_writes_only_when_active(ctx, 'C12')
     ds.transaction_bracket(ctx, 'C12')
 
 
